@@ -32,6 +32,9 @@ type PropertySpec struct {
 	Assumptions []string      `json:"assumptions"`
 	Outside     []string      `json:"outside"`
 	HostTables  []string      `json:"host_tables,omitempty"`
+	// assertion ids owned by this property (prefix match); default "<id>/". Failures of
+	// other assertions in a shared harness are reported by the property that owns them.
+	AssertPrefixes []string `json:"assert_prefixes,omitempty"`
 }
 
 type ChecksFile struct {
@@ -330,6 +333,9 @@ func cmdCheck(args []string) int {
 		classCount := map[string]int{}
 		n := 0
 		for _, f := range r.Failures {
+			if f.Kind == "assert" && !ownsAssert(spec, prop, f.AssertID) {
+				continue
+			}
 			key := f.AssertID + "|" + strings.Join(f.Findings, ",")
 			if classCount[key] >= 2 {
 				continue
@@ -490,6 +496,19 @@ func cmdCheck(args []string) int {
 		return 2
 	}
 	return 0
+}
+
+func ownsAssert(spec PropertySpec, prop, id string) bool {
+	pre := spec.AssertPrefixes
+	if len(pre) == 0 {
+		pre = []string{prop + "/"}
+	}
+	for _, p := range pre {
+		if strings.HasPrefix(id, p) {
+			return true
+		}
+	}
+	return false
 }
 
 func tail(s string, n int) string {
